@@ -116,6 +116,7 @@ type Opts struct {
 	BackendShards     int    `json:"backend_shards,omitempty"`
 	GatewayV1         bool   `json:"gateway_v1,omitempty"`
 	TCPConfigMap      string `json:"tcp_configmap,omitempty"` // --tcp-services-configmap "ns/name"
+	TCPRouteA2        bool   `json:"tcproute_a2,omitempty"`
 }
 
 // Run describes how one fresh pipeline is fed.
@@ -202,7 +203,7 @@ type Result struct {
 func Exec(r Run, u sem.Universe, keep bool) (*Result, error) {
 	popt := pipeline.Options{Dir: r.Dir, WatchWithoutClass: r.Opts.WatchWithoutClass,
 		DefaultService: r.Opts.DefaultService, BackendShards: r.Opts.BackendShards, NoAutoMeta: true,
-		HasGatewayV1: r.Opts.GatewayV1, TCPConfigMapName: r.Opts.TCPConfigMap}
+		HasGatewayV1: r.Opts.GatewayV1, TCPConfigMapName: r.Opts.TCPConfigMap, HasTCPRouteA2: r.Opts.TCPRouteA2}
 	var st *store
 	var sc *ShuffleClient
 	if r.ShuffleLists {
